@@ -861,7 +861,10 @@ def _compile_config(
     if initial_state:
         result["initial"] = initial_state
     if context is not None:
-        result["context"] = context
+        # 🧊 Each build gets its own copy: the definition's dict (class
+        #    attribute, builder field or caller's argument) must not become
+        #    the live `initial_context` shared by every machine built from it.
+        result["context"] = copy.deepcopy(context)
 
     # 🌳 Root-level properties. Real-world machines routinely declare
     #    `on`, `entry`, `exit`, `tags` and even `type: parallel` at the top
@@ -1365,7 +1368,7 @@ class MachineBuilder:
             config["initial"] = self._initial_state
         ctx = context if context is not None else self._context
         if ctx is not None:
-            config["context"] = ctx
+            config["context"] = copy.deepcopy(ctx)
 
         # 🌳 Machine-level properties (see MachineBuilder.root).
         if self._root:
